@@ -19,8 +19,9 @@ ALL = ['P_T', 'P_TA', 'P_N', 'F_T', 'F_TA', 'F_N', 'V_T', 'V_TA', 'V_N', 'M_T', 
 VARYING = ['V_T', 'V_TA', 'V_N', 'M_T', 'M_NA', 'VV_T']
 ALIGNED = ['P_TA', 'F_TA', 'V_TA', 'M_NA', 'VV_T']
 NONTRIV = ['P_N', 'F_N', 'V_N', 'M_NA', 'P_NM']     # P_NM: a non-trivial plain field BETWEEN two trivial ones
+CELL_LISTS = ['P_C', 'V_C']
 CXX20_LISTS = ['V_T', 'V_N', 'F_T', 'F_N', 'M_NA', 'VV_T', 'P_TA']
-NONTRIV_A = ['V_NA', 'PV_NA']   # non-trivial AlignAs objects whose size is not a multiple of the alignment (relocation overlaps)
+NONTRIV_A = ['V_NA', 'PV_NA', 'VA_N']   # non-trivial AlignAs objects whose size is not a multiple of the alignment (relocation overlaps); VA_N: an aligned (possibly empty) span in front of a non-trivial field
 S5Q = ['P_T', 'P_TA', 'P_N', 'F_T', 'F_TA', 'F_N', 'V_T', 'V_TA', 'V_N', 'M_T', 'B_T', 'B_TA', 'VB_T', 'P_TB', 'B_B', 'BB_T', 'SB_T',
        'Z_T']     # Z_T: FixedSize parameters with extent 0 (elements of zero bytes)
 
@@ -134,7 +135,7 @@ class Units(list):
 # property -> units per tier, judgement kinds routed to it, crash routing, extra filter
 PROPS = {
     'C01': {'level': 'model_checking',
-            'units': {'quick': u('S1', ALL + ['Z_T', 'ZP_T', 'P_NM'] + NONTRIV_A) + u('SR', ['V_T', 'V_N', 'F_N', 'M_NA']) + u('S1sim', ['V_T', 'M_NA'])
+            'units': {'quick': u('S1', ALL + ['Z_T', 'ZP_T', 'P_NM'] + NONTRIV_A + CELL_LISTS) + u('SR', ['V_T', 'V_N', 'F_N', 'M_NA']) + u('S1sim', ['V_T', 'M_NA'])
                                + u('S1', ['V_N', 'M_T'], ('AE',), ('cxx20',)),
                       'thorough': u('S1', ALL, ('AE', 'NP')) + u('S1', ALL, ('AE',), ('ndebug',)) + u('SR', ALL, ('AE', 'PR'))
                                   + u('S1sim', ALL, ('AE',)) + u('S1', CXX20_LISTS, ('AE',), ('cxx20',))},
@@ -201,9 +202,10 @@ PROPS = {
                          'instance of every block (at use and at free) judged by Trace.tla'},
     'C09': {'level': 'model_checking',
             'units': {'quick': u('S2', ALL, ('NP',)) + u('S2', ['F_N', 'V_N'], ('AE', 'PR')) + u('S2sim', ['V_N', 'F_T'], ('NP',))
-                               + u('S2', ['V_N'], ('NP',), ('cxx20',)),
+                               + u('S2', ['V_N'], ('NP',), ('cxx20',))
+                               + u('S2', CELL_LISTS, ('NP',)),     # handle type: trivially movable, deep copy constructor
                       'thorough': u('S2', ALL, ('NP', 'AE', 'PR')) + u('SR', ALL, ('AE', 'PR')) + u('S2sim', ALL, ('NP', 'PR'))
-                                  + u('S2', ['V_N', 'F_N', 'V_T'], ('NP',), ('cxx20',))},
+                                  + u('S2', ['V_N', 'F_N', 'V_T'], ('NP',), ('cxx20',)) + u('S2', CELL_LISTS, ('NP', 'AE', 'PR'))},
             'kinds': K_VALUE, 'crash': crash_any, 'filter': None,
             'technique': 'two-vector TLA+ model (copy/move construction and assignment, swap, self forms, moved-from '
                          'targets, all source/target shapes up to capacity 2) explored by TLC; the projection of BOTH '
@@ -326,6 +328,21 @@ def run_c20(tier, seed):
         else:
             ok_cells += len(vlib.GROUPS)
     os.makedirs(os.path.join(OUT, 'replay'), exist_ok=True)
+    # emplace_back from every source form of spec/Sources.tla (ranges, iterators, raw pointers, views; 11 source/stored
+    # type pairs) in both language modes: the C15 drivers are cells of this matrix too
+    src_cells = [(conv, b) for conv in sorted(SRC_TYPES) for b in C15_BUILDS]
+    src_bad = []
+    for (conv, b), (exe, diag) in zip(src_cells, ThreadPoolExecutor(12).map(build_sources, src_cells)):
+        if exe is None:
+            src_bad.append((conv, b, diag))
+            path = os.path.join(OUT, 'replay', 'C20_SOURCES_%s_%s.json' % (conv, b))
+            json.dump({'property': 'C20', 'group': 'SOURCES', 'build': b, 'types': SRC_TYPES[conv],
+                       'operations': 'emplace_back from every source form (range, iterator, raw pointer, view) for a '
+                                     'FixedSize / VaryingSize parameter, %s -> %s' % SRC_TYPES[conv],
+                       'compiler_diagnostics': diag[-6000:]}, open(path, 'w'), indent=1)
+            print('VIOLATION property=C20 replay=%s' % path)
+            print('   not well-formed (%s build): emplace_back from the source forms of spec/Sources.tla, %s -> %s'
+                  % ((b,) + SRC_TYPES[conv]))
     seen = set()
     for c, ak, g, diag in bad:
         if (c, g) in seen:
@@ -347,13 +364,16 @@ def run_c20(tier, seed):
                        'rule': 'a cell = (operation group, parameter list, allocator kind); non-trivial = compiles',
                        'samples': [{'config': c, 'list': vlib.describe_list(cfgs[c]), 'alloc_kind': ak,
                                     'groups': vlib.GROUPS} for c, ak in cells[:3]],
-                       'cells_not_well_formed': [[c, ak, g] for c, ak, g, _ in bad]},
+                       'cells_not_well_formed': [[c, ak, g] for c, ak, g, _ in bad],
+                       'source_form_cells': len(src_cells),
+                       'source_form_cells_not_well_formed': [[conv, b] for conv, b, _ in src_bad]},
           'assumptions': ['C++17, clang++ 14 with libstdc++ 12; the operation groups are those of harness/driver.hpp'],
-          'wall_s': round(time.time() - t0, 1), 'violations': len(bad)}
+          'wall_s': round(time.time() - t0, 1), 'violations': len(bad) + len(src_bad)}
     os.makedirs(EVID_DIR, exist_ok=True)
     json.dump(ev, open(os.path.join(EVID_DIR, 'C20.json'), 'w'), indent=1)
-    print('C20 %s: %d cells, %d not well-formed, %.0f s' % (tier, len(cells) * len(vlib.GROUPS), len(bad), time.time() - t0))
-    return 1 if bad else 0
+    print('C20 %s: %d cells, %d not well-formed, %.0f s' % (tier, len(cells) * len(vlib.GROUPS) + len(src_cells),
+                                                            len(bad) + len(src_bad), time.time() - t0))
+    return 1 if bad or src_bad else 0
 
 
 # ------------------------------------------------------------------------------------------------- C15: source forms
